@@ -171,4 +171,18 @@ def tokOfX : EOp → Option Term.Tok
   | .esc [99] => some .ris
   | op => tokOf op
 
+/-! ### round 4: colon sub-parameters outside SGR
+
+`Spec.Term` decides: a DEC VT and xterm IGNORE a CSI control function other than SGR whose parameter string contains a colon.
+`tokOfJ` is the vocabulary the oracle judges: `tokOfX`, plus `Tok.ignored` for the one- and two-parameter functions of the
+vocabulary (`onePs`, `twoPs`) carrying a sub-parameter anywhere. The emulator does NOT ignore these sequences — it executes the
+function on the main values (`Props.C06.emu_subparams_ignored`): finding F106f, recorded, with `Witness/F106f.lean`. The
+refinement theorems stay on `tokOfX` (= `tokOfJ` minus exactly that region). -/
+
+def hasSub (pm : List Param) : Bool := pm.any (fun p => !p.2.isEmpty)
+
+def tokOfJ : EOp → Option Term.Tok
+  | .csi [f] pm => if (f ∈ onePs ∨ f ∈ twoPs) ∧ hasSub pm = true then some .ignored else tokOfX (.csi [f] pm)
+  | op => tokOfX op
+
 end VaxisModel.Model.EmuAbs
